@@ -1,13 +1,19 @@
+pub mod c01;
 pub mod c10;
 pub mod c11;
+pub mod c17;
+pub mod c18;
 
 use crate::common::Ctx;
 use serde_json::Value;
 
 pub fn run(ctx: &Ctx, id: &str) -> bool {
     match id {
+        "C01" => c01::run(ctx),
         "C10" => c10::run(ctx),
         "C11" => c11::run(ctx),
+        "C17" => c17::run(ctx),
+        "C18" => c18::run(ctx),
         _ => return false,
     }
     true
@@ -15,8 +21,11 @@ pub fn run(ctx: &Ctx, id: &str) -> bool {
 
 pub fn replay(ctx: &Ctx, id: &str, part: &str, case: &Value) -> bool {
     match id {
+        "C01" => c01::replay(ctx, part, case),
         "C10" => c10::replay(ctx, part, case),
         "C11" => c11::replay(ctx, part, case),
+        "C17" => c17::replay(ctx, part, case),
+        "C18" => c18::replay(ctx, part, case),
         _ => {
             ctx.say(&format!("unknown property id {}", id));
             std::process::exit(2)
